@@ -91,7 +91,7 @@ def run(ctx):
         sid[0] += 1
         scenarios.append(lc.recipe_failed_claimer(sid[0]))
     # 3. scenarios walked by TLC
-    nseq, npar, nreuse, nros, novt = (30, 40, 12, 25, 20) if quick else (250, 400, 100, 200, 150)
+    nseq, npar, nreuse, nros, novt, nfresh = (30, 40, 12, 25, 15, 10) if quick else (250, 400, 100, 200, 150, 80)
     common = dict(Envs={"e1", "e2", "e3"}, TaskIds={"k%d" % i for i in range(1, 17)}, BasicChoices=[{"a"}, {"a", "b"}],
                   DetChoices=[{"TPC"}, {"ITS"}, {"TPC", "ITS"}], Ops=OPS, DestroyFlags=[set(), {"force"}, {"keep"}, {"allow"}],
                   MaxCalls=6, MaxInFlight=2)
@@ -103,7 +103,9 @@ def run(ctx):
     # what blanks the ids of an owned task (executor / agent reported lost; status updates generated by the master, without
     # executor id) followed by cleanups, creates and destroys of the other environments: kills and roster removals for one
     # environment (or for nobody) leave the tasks the others own alone
-    ros = dict(common, FaultRoles={"a", "b"}, FaultKinds={"EXECUTOR_LOST", "AGENT_LOST", "MASTER_NOEXEC", "MASTER_NOIDS"}, Ops=set(),
+    # ... and a hook task that died in an environment which still holds it (TASK_FAILED): not ACTIVE, but owned
+    ros = dict(common, HookChoices=[set(), {"h1"}], FaultRoles={"a", "b", "h1"},
+               FaultKinds={"TASK_FAILED", "EXECUTOR_LOST", "AGENT_LOST", "MASTER_NOEXEC", "MASTER_NOIDS"}, Ops=set(),
                DestroyFlags=[set(), {"force"}], MaxCalls=5, MaxInFlight=1)
     for h in lc.generate(ctx, ros, nros * 2, pairs=False):
         if any(it["do"] == "fault" for it in h) and nros > 0:
@@ -113,6 +115,19 @@ def run(ctx):
     ovt = dict(common, Ops=set(), DestroyFlags=[set(), {"force"}], MaxCalls=5)
     for h in lc.generate(ctx, ovt, novt, pairs=True, gates=["td.released1", "td.released2", "td.done"], max_pairs=1):
         add(h, "overtake")
+    # a deployment parked right after it wrote a task to the roster - a task that will not report TASK_RUNNING before the
+    # deploy timeout (silent launch) - overtaken by a cleanup / a destroy / the pre-deployment cleanup of another create
+    fresh = dict(common, Scripts={"ok", "silentlaunch"}, Ops=set(), DestroyFlags=[set(), {"force"}], MaxCalls=4)
+    for h in lc.generate(ctx, fresh, nfresh * 3, pairs=True, gates=["task.roster.appended"], max_pairs=1):
+        # (not against a destroy of the environment being created: whether the failure tail of the create still finds the
+        # environment, and whose KillTasks gets the tasks, is decided by timing the recorded lines do not show)
+        if nfresh > 0 and any(it["do"] == "par" and it["a"].get("script") == "silentlaunch" and it["gate"] != "missed"
+                              and not (it["b"].get("do") == "destroy" and it["b"].get("env") == it["a"].get("env")) for it in h):
+            add(h, "fresh")
+            nfresh -= 1
+    # a cleanup's roster filter against the roster write of a deployment (hand-scheduled: the point task.roster.filtered)
+    sid[0] += 1
+    scenarios.append(lc.recipe_lost_append(sid[0]))
     rc = dict(common, ReuseUnlocked=True, DetChoices=[set(), {"TPC"}], MaxCalls=5)
     for h in lc.generate(ctx, rc, nreuse, pairs=True, max_pairs=1):
         add(h, "reuse", reuse=True)
